@@ -107,12 +107,13 @@ Definition loud_body (k : fault) : bool :=
 Lemma loud_body_error : forall f k r items batch s,
   f_datapath f = datapath_of (f_kind f) -> loud_body k = true ->
   ls_errors (merge_result f (apply_fault k r) items batch s) <> [] /\
-  ls_data (merge_result f (apply_fault k r) items batch s) = ls_data s.
+  ls_data (merge_result f (apply_fault k r) items batch s) = ls_data s /\
+  In (f_id f) (ls_errored (merge_result f (apply_fault k r) items batch s)).
 Proof.
   intros f k r items batch s Hd Hk.
   destruct k; try discriminate; unfold merge_result, apply_fault, mk_response; cbn [rs_err rs_body rs_status];
-    try (split; [apply app_one_nonempty|reflexivity]);
-    rewrite Hd; destruct (f_kind f); cbn; (split; [apply app_one_nonempty|reflexivity]).
+    try (split; [apply app_one_nonempty|split; [reflexivity|cbn; auto]]);
+    rewrite Hd; destruct (f_kind f); cbn; (split; [apply app_one_nonempty|split; [reflexivity|auto]]).
 Qed.
 
 Lemma count_body : forall answer root_answer rq g,
@@ -135,7 +136,8 @@ Lemma count_outcome : forall answer root_answer f k rq items batch s,
   (f_kind f = FEntity /\ length (rq_reps rq) = 1%nat \/
    f_kind f = FBatch /\ exists bs : list (list rpath), batch = Some bs /\ length bs = length (rq_reps rq)) ->
   ls_errors (merge_result f (apply_fault k (clean_response answer root_answer rq false)) items batch s) <> [] /\
-  ls_data (merge_result f (apply_fault k (clean_response answer root_answer rq false)) items batch s) = ls_data s.
+  ls_data (merge_result f (apply_fault k (clean_response answer root_answer rq false)) items batch s) = ls_data s /\
+  In (f_id f) (ls_errored (merge_result f (apply_fault k (clean_response answer root_answer rq false)) items batch s)).
 Proof.
   intros answer root_answer f k rq items batch s Hd Hk Hne Hkind.
   remember (map fst (map (answer (rq_fetch rq)) (rq_reps rq))) as ents eqn:Hents.
@@ -157,7 +159,7 @@ Proof.
   set (errs := errors_member (flat_map snd (map (answer (rq_fetch rq)) (rq_reps rq)))).
   set (resp := JObj ((k_data, JObj [(k_entities, JArr (g ents))]) :: errs)).
   destruct (negb (valid_numbers resp)).
-  { destruct (non2xx _); (split; [apply fail_errors_ne|reflexivity]). }
+  { destruct (non2xx _); (split; [apply fail_errors_ne|split; [reflexivity|left; reflexivity]]). }
   assert (Hent : get_loc [PName k_data; PName k_entities] resp = Some (JArr (g ents))).
   { subst resp. cbn [get_loc obj_get]. change (bytes_eqb k_data k_data) with true. cbv iota.
     cbn [get_loc obj_get]. change (bytes_eqb k_entities k_entities) with true. reflexivity. }
@@ -167,15 +169,15 @@ Proof.
   destruct Hkind as [[Hk1 Hl1]|[Hk2 (bs & -> & Hbl)]].
   - rewrite Hk1. destruct (Nat.eqb (length (g ents)) 1) eqn:E.
     + apply Nat.eqb_eq in E. lia.
-    + cbn [negb]. split; [apply fail_errors_ne|exact H1].
+    + cbn [negb]. split; [apply fail_errors_ne|split; [exact H1|left; reflexivity]].
   - rewrite Hk2. rewrite Hd, Hk2. change (datapath_of FBatch) with [PName k_data; PName k_entities]. rewrite Hent. cbn [is_nullish].
     destruct items as [|l [|l2 r]].
-    + split; [apply fail_errors_ne|exact H1].
-    + destruct (g ents) as [|b0 b] eqn:G; [split; [apply fail_errors_ne|exact H1]|].
-      destruct (Nat.eqb (length bs) (length (b0 :: b))) eqn:E; [|split; [apply fail_errors_ne|exact H1]].
+    + split; [apply fail_errors_ne|split; [exact H1|left; reflexivity]].
+    + destruct (g ents) as [|b0 b] eqn:G; [split; [apply fail_errors_ne|split; [exact H1|left; reflexivity]]|].
+      destruct (Nat.eqb (length bs) (length (b0 :: b))) eqn:E; [|split; [apply fail_errors_ne|split; [exact H1|left; reflexivity]]].
       apply Nat.eqb_eq in E. lia.
-    + destruct (g ents) as [|b0 b] eqn:G; [split; [apply fail_errors_ne|exact H1]|].
-      destruct (Nat.eqb (length bs) (length (b0 :: b))) eqn:E; [|split; [apply fail_errors_ne|exact H1]].
+    + destruct (g ents) as [|b0 b] eqn:G; [split; [apply fail_errors_ne|split; [exact H1|left; reflexivity]]|].
+      destruct (Nat.eqb (length bs) (length (b0 :: b))) eqn:E; [|split; [apply fail_errors_ne|split; [exact H1|left; reflexivity]]].
       apply Nat.eqb_eq in E. lia.
 Qed.
 
@@ -183,13 +185,14 @@ Qed.
 Lemma nan_outcome : forall f r items batch s d rest,
   rs_err r = false -> rs_body r = BJson (JObj ((k_data, JObj d) :: rest)) ->
   ls_errors (merge_result f (apply_fault FtNaNData r) items batch s) <> [] /\
-  ls_data (merge_result f (apply_fault FtNaNData r) items batch s) = ls_data s.
+  ls_data (merge_result f (apply_fault FtNaNData r) items batch s) = ls_data s /\
+  In (f_id f) (ls_errored (merge_result f (apply_fault FtNaNData r) items batch s)).
 Proof.
   intros f r items batch s d rest He Hb. unfold merge_result, apply_fault, on_body. cbn [rs_err rs_body rs_status]. rewrite He, Hb.
   unfold map_data. cbn [map fst snd]. change (bytes_eqb k_data k_data) with true. cbv iota.
   match goal with |- context [valid_numbers ?j] => assert (Hv : valid_numbers j = false) end.
   { cbn [nanify]. cbn. reflexivity. }
-  rewrite Hv. cbn [negb]. destruct (non2xx _); (split; [apply fail_errors_ne|reflexivity]).
+  rewrite Hv. cbn [negb]. destruct (non2xx _); (split; [apply fail_errors_ne|split; [reflexivity|left; reflexivity]]).
 Qed.
 
 (* ---- requests are only appended ---- *)
@@ -242,7 +245,8 @@ Lemma loud_outcome : forall answer root_answer f k d0 items0 d rq batch items s,
   f_datapath f = datapath_of (f_kind f) -> loud (f_kind f) k = true ->
   prepare f d0 items0 = PLoad d rq batch ->
   let res := apply_fault k (clean_response answer root_answer rq match f_kind f with FSingle => true | _ => false end) in
-  ls_errors (merge_result f res items batch s) <> [] /\ ls_data (merge_result f res items batch s) = ls_data s.
+  ls_errors (merge_result f res items batch s) <> [] /\ ls_data (merge_result f res items batch s) = ls_data s /\
+  In (f_id f) (ls_errored (merge_result f res items batch s)).
 Proof.
   intros answer root_answer f k d0 items0 d rq batch items s Hrobj Hd Hloud HP. cbv zeta.
   destruct (prepare_request _ _ _ _ _ _ HP) as (Hrq & Hb & He).
